@@ -96,6 +96,22 @@ def funcs(sp, rng):
     yield 'default-convex_conj(L2NormSquared+Huber)', lambda: (S.L2NormSquared(sp) + S.Huber(sp, 0.3)).convex_conj, ('novalue',)
     yield 'BregmanDistance(L2NormSquared)', lambda: (lambda p: S.BregmanDistance(S.L2NormSquared(sp), p, S.L2NormSquared(sp).gradient(p)))(g()), ('smooth',)
     yield 'BregmanDistance(L1Norm)', lambda: (lambda p: S.BregmanDistance(S.L1Norm(sp), p, S.L1Norm(sp).gradient(p)))(sp.element(np.where(np.abs(np.asarray(g())) < 0.2, 0.5, np.asarray(g())))), ()
+    # user-assembled functionals (all six callables given), their conjugates and biconjugates
+    def simple(fn):
+        f0 = fn()
+        fc = f0.convex_conj
+        kw = {}
+        try:
+            kw = dict(grad=f0.gradient, convex_conj_grad=fc.gradient)
+        except Exception:
+            kw = {}
+        return S.simple_functional(sp, fcall=f0, prox=f0.proximal, convex_conj_fcall=fc, convex_conj_prox=fc.proximal, **kw)
+    yield 'simple_functional(L1Norm)', lambda: simple(lambda: S.L1Norm(sp)), ()
+    yield 'simple_functional(L1Norm).convex_conj', lambda: simple(lambda: S.L1Norm(sp)).convex_conj, ('indicator',)
+    yield 'simple_functional(L1Norm).convex_conj.convex_conj', lambda: simple(lambda: S.L1Norm(sp)).convex_conj.convex_conj, ()
+    yield 'simple_functional(L2NormSquared)', lambda: simple(lambda: S.L2NormSquared(sp)), ('smooth',)
+    yield 'simple_functional(L2NormSquared).convex_conj', lambda: simple(lambda: S.L2NormSquared(sp)).convex_conj, ('smooth',)
+    yield 'simple_functional(L2NormSquared).convex_conj.convex_conj', lambda: simple(lambda: S.L2NormSquared(sp)).convex_conj.convex_conj, ('smooth',)
     yield 'MoreauEnvelope(L1Norm)', lambda: S.MoreauEnvelope(S.L1Norm(sp), 0.7), ('c1', 'noprox')
     yield 'InfimalConvolution(L2NormSquared,L1Norm)', lambda: S.InfimalConvolution(S.L2NormSquared(sp), S.L1Norm(sp)), ('novalue', 'noprox')
 
